@@ -5,6 +5,7 @@ import (
 
 	"github.com/nyaruka/gocommon/urns"
 	"github.com/nyaruka/goflow/assets"
+	"github.com/nyaruka/goflow/assets/static"
 	"github.com/nyaruka/goflow/flows"
 	"github.com/nyaruka/goflow/flows/actions"
 	"github.com/nyaruka/goflow/flows/definition"
@@ -43,16 +44,19 @@ func verifResultName(name string) string {
 // VerifC20_ActionResults: for every result-saving action type that runs
 // without the HTTP stack (set_run_result with/without category, open_ticket,
 // transfer_airtime with a service that succeeds, fails or is unavailable,
-// call_classifier on its dependency-missing path) with an arbitrary valid
+// call_classifier on its dependency-missing path, call_webhook and
+// call_resthook against a stub service that answers 200 / 400 / 410 or fails
+// to connect) with an arbitrary valid
 // result name: every result the run saves is declared by the action
 // (ResultContainer, what inspect.Results collects) under the same key, and
 // its category is among the declared ones when categories are declared.
-// cover: set_run_result, open_ticket, transfer_airtime, call_classifier, category-checked
+// cover: set_run_result, open_ticket, transfer_airtime, call_classifier, call_webhook, call_resthook, category-checked
 func VerifC20_ActionResults() {
 	name := verifResultName("result-name")
 	var act flows.Action
-	kind := zzverif.Choice("action", 4)
+	kind := zzverif.Choice("action", 6)
 	sa := verifNewAssets()
+	svc := &verifWebhookSvc{body: `{"ok":true}`}
 	switch kind {
 	case 0:
 		zzverif.Cover("set_run_result")
@@ -67,12 +71,30 @@ func VerifC20_ActionResults() {
 	case 2:
 		zzverif.Cover("transfer_airtime")
 		act = actions.NewTransferAirtime("a1", map[string]decimal.Decimal{"RWF": decimal.New(10, 0)}, name)
-	default:
+	case 3:
 		zzverif.Cover("call_classifier")
 		act = actions.NewCallClassifier("a1", assets.NewClassifierReference("cls1", "Booking"), "hello", name)
+	default:
+		switch zzverif.Choice("webhook-outcome", 4) {
+		case 1:
+			svc.status = 400
+		case 2:
+			svc.status = 410
+		case 3:
+			svc.broken = true
+		}
+		if kind == 4 {
+			zzverif.Cover("call_webhook")
+			act = actions.NewCallWebhook("a1", "POST", "http://example.com/hook", map[string]string{"X-Test": "@contact.name"}, "{}", name)
+		} else {
+			zzverif.Cover("call_resthook")
+			act = actions.NewCallResthook("a1", "new-registration", name)
+			sa.resthooks = flows.NewResthookAssets([]assets.Resthook{static.NewResthook("new-registration", []string{"http://example.com/a", "http://example.com/b"})})
+		}
 	}
 	verifOneNodeFlow(sa, act)
-	eng := NewBuilder().WithAirtimeServiceFactory(func(flows.SessionAssets) (flows.AirtimeService, error) { return verifAirtime{}, nil }).Build()
+	eng := NewBuilder().WithAirtimeServiceFactory(func(flows.SessionAssets) (flows.AirtimeService, error) { return verifAirtime{}, nil }).
+		WithWebhookServiceFactory(func(flows.SessionAssets) (flows.WebhookService, error) { return svc, nil }).Build()
 	contact := verifContact(sa)
 	if zzverif.Choice("contact-has-whatsapp", 2) == 1 {
 		contact.AddURN("whatsapp:250788123123", nil)
